@@ -126,6 +126,7 @@ func checkC05(ctx *Ctx, r *Report) {
 	c05SixthRound(ctx, r)
 	c05SeventhRound(ctx, r)
 	c18HintedBranchesVisited(ctx, r)
+	c18SpreadFieldsCopied(ctx, r) // types shared by duplicates are renamed once through each: PA -> PPA, a dangling reference
 	c07ObjectSetsKeyedByIdentity(ctx, r)
 	c01DefinitionIdentity(ctx, r)
 }
